@@ -117,6 +117,11 @@ enum Leaf {
     Byte(VK),
     /// `lda #c1`: the constant defined at the top of main.asm
     LdaTop,
+    /// `dex` + `bne -` directly in the enclosing body: `-` is the start of the enclosing block
+    /// (the loop iteration, the macro expansion, the import scope, ...)
+    BneMinus,
+    /// `beq +` + `nop`: `+` is the end of the enclosing block
+    BeqPlus,
 }
 
 #[derive(Clone, PartialEq, Eq, Hash, Debug)]
@@ -211,6 +216,8 @@ impl Leaf {
         match self {
             Leaf::Nop => "nop",
             Leaf::LdaTop => "lda#top-const",
+            Leaf::BneMinus => "bne-minus",
+            Leaf::BeqPlus => "beq-plus",
             Leaf::JmpOuter => "jmp-outer",
             Leaf::JmpFwd => "jmp-fwd",
             Leaf::InnerLabel => "inner-label",
@@ -281,9 +288,11 @@ fn is_base(l: &Level) -> bool {
     )
 }
 
-const LEAVES: [Leaf; 12] = [
+const LEAVES: [Leaf; 14] = [
     Leaf::Nop,
     Leaf::LdaTop,
+    Leaf::BneMinus,
+    Leaf::BeqPlus,
     Leaf::JmpOuter,
     Leaf::JmpFwd,
     Leaf::InnerLabel,
@@ -328,6 +337,14 @@ fn levels_valid(levels: &[Level]) -> bool {
 }
 
 fn leaf_valid(levels: &[Level], leaf: Leaf) -> bool {
+    if matches!(leaf, Leaf::BneMinus | Leaf::BeqPlus) {
+        // `-` / `+` are documented as the start / end of a *block*. The statement gives macro
+        // expansions and imported files "a scope", not a block (the implementation defines no
+        // `-`/`+` for them), so their by-hand meaning is fixed only directly inside a loop body or a
+        // brace block; `.if` and `.const` are transparent.
+        let nearest = levels.iter().rev().find(|l| !matches!(l, Level::If(..) | Level::Const { .. }));
+        return matches!(nearest, Some(Level::Loop(_)) | Some(Level::Braces { .. }));
+    }
     let vk = match leaf {
         Leaf::Lda(v) | Leaf::Byte(v) => v,
         _ => return true,
@@ -406,6 +423,8 @@ impl<'n> Builder<'n> {
         match self.nest.leaf {
             Leaf::Nop => vec![imp("nop")],
             Leaf::LdaTop => vec![ins("lda", Form::Imm, id("c1"))],
+            Leaf::BneMinus => vec![imp("dex"), ins("bne", Form::Plain, id("-"))],
+            Leaf::BeqPlus => vec![ins("beq", Form::Plain, id("+")), imp("nop")],
             Leaf::JmpOuter => vec![ins("jmp", Form::Plain, id("outer"))],
             Leaf::JmpFwd => vec![ins("jmp", Form::Plain, id("fwd"))],
             Leaf::InnerLabel => vec![Stmt::Braces(vec![
